@@ -127,20 +127,34 @@ def run(ctx, rep):
     # ---- C10.rewind -------------------------------------------------------------------------------
     start_def = call_blocks(b, r"std::io::Seek::stream_position$")
     reads = call_blocks(b, r"metadata::BlockList::read$")
-    for bi, t in writers:
-        f = pf.get(bi, TOP)
-        good = has_ok(f, r"std::io::Seek::seek$")
-        # the seek target is SeekFrom::Start(position before reading)
-        rep.check("C10.rewind", "in-place write after a successful rewind", good, loc_of(b, t), "", "in-place write without a successful seek back to the start of the metadata")
-    for bi, t in seeks:
-        org = origins(b, t["a"][1])
+    def target_ok(o):
+        """the operand is SeekFrom::Start(position remembered before the blocks were read)"""
         good = False
-        for k, x in org:
+        for k, x in origins(b, o):
             if k == "agg" and x["adt"] == "std::io::SeekFrom" and x["var"] == "Start":
                 sl = backward_slice(b, x["ops"][0])
                 good = any(re.search(r"std::io::Seek::stream_position$", callee_name(c)) for c in sl["calls"]) and not (sl["ops"] - {"Eq", "Ne"})
-        good = good and start_def and reads and b.dominates(start_def[0][0], reads[0][0])
-        rep.check("C10.rewind", "rewind target is the position remembered before the blocks were read", bool(good), loc_of(b, t))
+        return bool(good and start_def and reads and b.dominates(start_def[0][0], reads[0][0]))
+    for bi, t in writers:
+        f = pf.get(bi, TOP)
+        good = has_ok(f, r"std::io::Seek::seek$")
+        if not good:
+            # the rewind may be the first thing the in-place writer itself does: seek(start)?; then write
+            wb = [x for x in F.bodies if x.promoted is None and re.search(r"update_file::write_in_place$", strip_generics(x.path))]
+            if len(wb) == 1:
+                wb = wb[0]
+                pfw = ok.path_facts(wb)
+                sk = call_blocks(wb, r"std::io::Seek::seek$")
+                wr = call_blocks(wb, r"metadata::write_blocks$")
+                if len(sk) == 1 and wr and all(fact_match(pfw.get(wi, TOP), "call-ok", r"std::io::Seek::seek$") for wi, _ in wr):
+                    params = [a for a in backward_slice(wb, sk[0][1]["a"][1])["args"] if 1 <= a <= len(t["a"])]
+                    good = len(params) == 1 and target_ok(t["a"][params[0] - 1])
+                    if good:
+                        rep.check("C10.rewind", "rewind target is the position remembered before the blocks were read", True, loc_of(b, t), "seek inside write_in_place, target passed as argument %d" % params[0])
+        # the seek target is SeekFrom::Start(position before reading)
+        rep.check("C10.rewind", "in-place write after a successful rewind", good, loc_of(b, t), "", "in-place write without a successful seek back to the start of the metadata")
+    for bi, t in seeks:
+        rep.check("C10.rewind", "rewind target is the position remembered before the blocks were read", target_ok(t["a"][1]), loc_of(b, t))
 
     # ---- C10.dir -----------------------------------------------------------------------------------------
     cmpc = [(i, t) for i, t in b.calls() if re.search(r"Ord(>| for u64>)?::cmp$|cmp::Ord::cmp$", callee_name(t))]
